@@ -51,7 +51,8 @@ def both_parities(ctx):
 
 @bounded("C05", "low_hamming_weight_leading_ones",
          bound="SAMPLED: primes of 256 / 512 bits (weight 12 / 16) whose top k bits are ALL ones, k in {3, 4, 5, 6, 8} (both "
-               "primes the same k, and k = 5 paired with k = 1): the first expansions of the best-first search then sit "
+               "primes the same k), plus ONE fixed 1023-bit instance (6 leading ones x 1 leading one, weights 16 / 16: known "
+               "finding F21, abandoned at the default cutoff): the first expansions of the best-first search then sit "
                "exactly on its pruning boundary rem == p0 + q0; CheckLowHammingWeight(n) must flag, factors must be {p, q}",
          functions=["rsa_util.CheckLowHammingWeight"])
 def leading_ones(ctx):
@@ -70,7 +71,7 @@ def leading_ones(ctx):
       if gmpy2.is_prime(p):
         return p
   for bits, weight in ((256, 12), (512, 16)):
-    for k1, k2 in ((3, 3), (4, 4), (5, 5), (6, 6), (8, 8), (5, 1)):
+    for k1, k2 in ((3, 3), (4, 4), (5, 5), (6, 6), (8, 8)):
       for trial in range(3 if ctx.thorough else 1):
         p, q = prime(bits, weight, k1), prime(bits, weight, k2)
         if p == q:
@@ -85,3 +86,15 @@ def leading_ones(ctx):
         ctx.check(not factors or sorted(int(x) for x in factors) == sorted((p, q)),
                   "factors returned by CheckLowHammingWeight are the true primes", inputs,
                   observed=[int(x) for x in factors], expected=sorted((p, q)))
+
+  # fixed instance (found by this check's first thorough run with a 5-ones x 1-one pair; known finding F21): the search is
+  # abandoned after the default cutoff of 2500 steps although cutoff = 10000 factors n in 0.1 s
+  p = 13198310956011232422421118708661988148146030312326691768084458824365489688942824473653446617499735101859609125482253637001890260738085277855815074746204161
+  q = 6808654062759232851415811939008387396274355407056128261550712743007673780904390568861489932821874644024408149136899091778300031730970435892608728687443969
+  n = p * q
+  inputs = dict(family="low_hamming_weight_leading_ones", modulus_bits=n.bit_length(), leading_ones=[6, 1],
+                weights=[16, 16], p=p, q=q, n=n, fixed_instance="F21")
+  ctx.case(key=("fixed", "F21"))
+  weak, factors = rsa_util.CheckLowHammingWeight(gmpy2.mpz(n))
+  ctx.check(bool(weak), "CheckLowHammingWeight flags n when both primes have Hamming weight <= 32", inputs,
+            observed=dict(weak=bool(weak), factors=[int(x) for x in factors]), expected="weak == True")
